@@ -68,7 +68,7 @@ def history(rng, enc, targeted):
             k = rng.choice(live); live.remove(k); steps.append("D %d" % k)
             for x in list(info):
                 if info[x] == ("copy", k): info[x] = "derived"
-    return "%s %d SALT %d ; %s" % (enc, len(steps), rng.randrange(12), " ; ".join(steps))
+    return "%s %d SALT %d%s ; %s" % (enc, len(steps), rng.randrange(12), " MAPS" if rng.random() < 0.3 else "", " ; ".join(steps))
 def isect_history(rng, enc):
     """targeted at the product constructions: B random, A := image of B under a merging map (repeated states in A's tuples where B has
     distinct ones; L(B) <= L(A), so both intersections must denote L(B)), or two richer random automata; both operand orders, then trimming"""
@@ -79,7 +79,7 @@ def isect_history(rng, enc):
         b = gen.rand_ta(rng, rng.randint(2, 4), rng.randint(3, 8), sigma=SIG, pfinal=0.5, leafbias=0.35)
     if rng.random() < 0.5: b = b.rename({q: q + 10 for q in b.states()})
     steps = ["L 0 " + a.fmt(), "L 1 " + b.fmt(), "X 2 0 1", "X 3 1 0", "%s 4 2" % rng.choice(["UL", "UR"]), "U 5 2 3"]
-    return "%s %d SALT %d ; %s" % (enc, len(steps), rng.randrange(12), " ; ".join(steps))
+    return "%s %d SALT %d%s ; %s" % (enc, len(steps), rng.randrange(12), " MAPS" if rng.random() < 0.3 else "", " ; ".join(steps))
 def leaf_into_copies(rng, enc):
     """copies of one base automaton (sharing its transition table) into which DIFFERENT leaf rules (and only leaf rules) are loaded afterwards,
     then union / intersection of the copies: exercises copy-on-write of the nullary part separately from the shared table"""
@@ -91,7 +91,7 @@ def leaf_into_copies(rng, enc):
     steps = ["L 0 " + base.fmt() if rng.random() < 0.7 else "N 0", "C 1 0", "LA 0 " + leaves().fmt(), "LA 1 " + leaves().fmt(),
              "U 2 0 1", "U 3 1 0", "X 4 0 1", "%s 5 2" % rng.choice(["UL", "UR"])]     # no UnionDisjointStates: the state sets overlap and the rules differ (outside its precondition)
     if rng.random() < 0.4: steps.insert(2, "C 6 1")
-    return "%s %d SALT %d ; %s" % (enc, len(steps), rng.randrange(12), " ; ".join(steps))
+    return "%s %d SALT %d%s ; %s" % (enc, len(steps), rng.randrange(12), " MAPS" if rng.random() < 0.3 else "", " ; ".join(steps))
 def shared_finals(rng, enc):
     """copies of one base automaton (sharing its transition table) that get DIFFERENT final states afterwards; the base contains duplicated
     states (q and q+5 carry the same rules), so that trees are accepted by both copies through different states: union / intersection of
@@ -110,7 +110,7 @@ def shared_finals(rng, enc):
              "%s 6 3" % rng.choice(["UL", "UR"])]
     if rng.random() < 0.4: steps.append("UD 7 1 2")
     if rng.random() < 0.4: steps += ["U 8 0 1", "X 9 8 2"]
-    return "%s %d SALT %d ; %s" % (enc, len(steps), rng.randrange(12), " ; ".join(steps))
+    return "%s %d SALT %d%s ; %s" % (enc, len(steps), rng.randrange(12), " MAPS" if rng.random() < 0.3 else "", " ; ".join(steps))
 def cases(rng, tier):
     cs = [(l, "corpus") for l in CORPUS]
     for enc in ("bu", "td"):
